@@ -298,6 +298,9 @@ SHIM_MAP = {
     "<core::slice::Iter<'a, T> as core::iter::DoubleEndedIterator>::next_back": 'iter_next_back',
     "<core::slice::Iter<'a, T> as core::iter::Iterator>::size_hint": 'iter_size_hint',
     "<core::slice::Iter<'a, T> as core::iter::ExactSizeIterator>::len": 'iter_len',
+    "<core::slice::Iter<'_, T> as core::iter::ExactSizeIterator>::len": 'iter_len',
+    "<core::slice::Iter<'_, T> as core::iter::ExactSizeIterator>::is_empty": 'iter_is_empty',
+    "<core::array::IntoIter<T, N> as core::iter::ExactSizeIterator>::is_empty": 'arr_iter_is_empty',
     "<core::slice::Iter<'a, T> as core::iter::Iterator>::count": 'iter_count',
     "<core::slice::Iter<'a, T> as core::iter::Iterator>::last": 'iter_last',
     "<core::slice::Iter<'a, T> as core::iter::Iterator>::nth": 'iter_nth',
@@ -314,6 +317,12 @@ SHIM_MAP = {
     "<core::slice::IterMut<'a, T> as core::iter::Iterator>::next": 'iter_mut_next',
     'core::array::iter::<impl core::iter::IntoIterator for [T; N]>::into_iter': 'array_into_iter',
     'core::char::CaseMappingIter::new': 'case_mapping_iter_new',
+    'core::str::<impl str>::chars': 'str_chars',
+    "<core::str::Chars<'a> as core::iter::Iterator>::nth": 'chars_nth',
+    "<core::str::Chars<'a> as core::iter::Iterator>::count": 'chars_count',
+    "<core::str::Chars<'a> as core::iter::Iterator>::advance_by": 'chars_advance_by',
+    'core::str::<impl str>::bytes': 'str_bytes',
+    'core::str::<impl str>::char_indices': 'str_char_indices',
     '<core::array::IntoIter<T, N> as core::iter::Iterator>::next': 'arr_iter_next',
     '<core::array::IntoIter<T, N> as core::iter::DoubleEndedIterator>::next_back': 'arr_iter_next_back',
     '<core::array::IntoIter<T, N> as core::iter::Iterator>::size_hint': 'arr_iter_size_hint',
@@ -357,6 +366,7 @@ SLICE_MODELS = {
     'core::slice::cmp::<impl core::cmp::PartialEq<[U]> for [T]>::eq', 'core::slice::cmp::<impl core::cmp::PartialEq<[U]> for [T]>::ne',
     'core::array::equality::<impl core::cmp::PartialEq<[U; N]> for [T; N]>::eq', 'core::array::equality::<impl core::cmp::PartialEq<[U; N]> for [T; N]>::ne',
     'core::str::<impl str>::as_bytes', 'core::str::<impl str>::len', 'core::str::<impl str>::is_empty',
+    'core::str::traits::<impl core::cmp::PartialEq for str>::eq', 'core::str::traits::<impl core::cmp::PartialEq for str>::ne',
 }
 # `slice[a..b]` and friends: modelled as a window onto the same storage (core implements them with raw pointers)
 RANGE_INDEX = _re.compile(r'^<core::ops::(Range|RangeTo|RangeFrom|RangeInclusive|RangeToInclusive)<usize> as core::slice::SliceIndex<\[T\]>>::(index|index_mut|get|get_mut)$'
@@ -912,6 +922,8 @@ class Engine:
         if 'zst' in o:
             if ty['k'] == 'tuple':
                 return ('adt', '(tuple)', 0, ())
+            if ty['k'] == 'closure':
+                return self.zst_value(ty)
             return ('adt', ty['path'], 0, ())
         if 'fn' in o:
             return self.fn_value(o['fn'])
@@ -922,6 +934,23 @@ class Engine:
                 st.store[cell] = ('op', 'str-data', ty['to'])
             return ('ref', cell, ())
         return ('op', 'const:' + o.get('other', '?')[:60], ty)
+
+    def zst_value(self, ty):
+        """The only value of a zero-sized type (a closure capturing only fn items / other such closures, a fn item, unit)."""
+        k = ty.get('k')
+        if k == 'closure':
+            return ('adt', '(closure)' + ty['path'] + ('\t' + ty['inst'] if ty.get('inst') and ty['path'] not in self.prog.fns else ''), 0,
+                    tuple(self.zst_value(u) for u in ty.get('upvars', [])))
+        if k == 'fndef' and 'fn' in ty:
+            return self.fn_value(ty['fn'])
+        if k == 'tuple' and not ty['elems']:
+            return ('adt', '(tuple)', 0, ())
+        if k == 'adt' and ty['path'] in self.prog.adts and self.prog.adts[ty['path']]['kind'] == 'struct' \
+                and not self.prog.adts[ty['path']]['variants'][0]['fields']:
+            return ('adt', ty['path'], 0, ())
+        if k == 'ref':
+            raise Undecided('zero-sized constant containing a reference')
+        raise Undecided('zero-sized constant of type %s' % k)
 
     def static_cell(self, path, st):
         cell = ('S', path)
@@ -974,8 +1003,10 @@ class Engine:
         return ('fn', fnref)
 
     def eval_promoted(self, idx, st, fr):
+        if idx >= len(fr.fn.get('promoted') or []):
+            raise Undecided('promoted constant %d of %s was not extracted' % (idx, fr.fn.get('path')))
         body = fr.fn['promoted'][idx]
-        key = ('P', fr.fn['path'], idx)
+        key = ('P', fr.fn.get('path_inst') or fr.fn['path'], idx)
         if key in st.store:
             return st.store[key]
         # run the (straight-line) promoted body in a scratch frame
@@ -1086,7 +1117,28 @@ class Engine:
             if rv['kind'] == 'Transmute' and is_scalar(a) and tk in INT_TYPES and tk_of(a) in INT_TYPES \
                     and INT_TYPES[tk][0] == INT_TYPES[tk_of(a)][0] and tk != 'bool' and tk_of(a) != 'bool':
                 return T('Cast', (a,), tk)
+            if rv['kind'] == 'Transmute' and a is not None and a[0] == 'ref' and rv['ty'].get('k') == 'ref' \
+                    and (rv['ty']['to'].get('k') == 'str' or (rv['ty']['to'].get('k') == 'slice' and self.prog.tk(rv['ty']['to']['elem']) == 'u8')):
+                tgt_ = self.get_path(st.store.get(a[1]), a[2], st)
+                if tgt_ is not None and tgt_[0] == 'arr' and all(x is not None and is_scalar(x) and tk_of(x) == 'u8' for x in tgt_[1]):
+                    return a           # &str <-> &[u8]: same bytes (as_bytes / from_utf8_unchecked)
             if rv['kind'] == 'Transmute' and a is not None:
+                dty_ = rv['ty']
+                nz = 'core::num::NonZero'
+                if is_scalar(a) and dty_.get('k') == 'adt' and dty_['path'] == nz:
+                    return ('adt', nz, 0, (a,))        # transparent wrapper; core only ever transmutes in and out of it
+                if is_scalar(a) and dty_.get('k') == 'adt' and dty_['path'] == 'core::option::Option' and dty_['args'] \
+                        and dty_['args'][0].get('k') == 'adt' and dty_['args'][0]['path'] == nz:
+                    isz = T('Eq', (a, C(0, tk_of(a))), 'bool')     # the niche: 0 is None
+                    z = isz[1] if isz[0] == 'c' else self.unique_value(isz, st)
+                    if z is None:
+                        raise NeedSplit(isz)
+                    return ('adt', 'core::option::Option', 0, ()) if z else ('adt', 'core::option::Option', 1, (('adt', nz, 0, (a,)),))
+                if a[0] == 'adt' and a[1] == nz and len(a[3]) == 1 and is_scalar(a[3][0]):
+                    if dty_.get('k') == 'adt' and dty_['path'] == nz:
+                        return a
+                    if tk in INT_TYPES and INT_TYPES[tk][0] == INT_TYPES[tk_of(a[3][0])][0]:
+                        return T('Cast', (a[3][0],), tk)
                 # byte array <-> integer (from_ne_bytes / to_ne_bytes); the analysed host is little-endian x86-64
                 dty = rv['ty']
                 if a[0] == 'arr' and tk in INT_TYPES and tk not in ('bool', 'char') and INT_TYPES[tk][0] == 8 * len(a[1]) \
@@ -1182,7 +1234,12 @@ class Engine:
         if st.steps > self.max_steps:
             raise Undecided('step budget exhausted (loop?)', s.get('sp'))
         if s['k'] == 'assign':
-            v = self.rvalue(s['rv'], st, fr, s['sp'])
+            try:
+                v = self.rvalue(s['rv'], st, fr, s['sp'])
+            except Undecided as u_:
+                if u_.where is None and s.get('sp'):
+                    u_.where = s['sp']
+                raise
             if s['rv']['k'] == 'discr' and is_scalar(v) and tk_of(v) == 'isize' and not s['pl']['p']:
                 # Discriminant(place) has the enum's discriminant type (i8 for Ordering), which is the local's type
                 dtk = self.prog.tk(fr.body['locals'][s['pl']['l']]['ty'])
@@ -1642,7 +1699,8 @@ class Engine:
                 return self.call_closure(v[1][len('(closure)'):], cv, args, t, st, fr)
             if selfty is not None and selfty.get('k') == 'closure':
                 return self.call_closure(selfty['path'] + ('\t' + selfty['inst'] if selfty.get('inst') else ''), cv, args, t, st, fr)
-            raise Undecided('call of an unknown callable %s' % term_str(v), sp)
+            if not (res is not None and res.get('kind') == 'item' and v is not None and v[0] == 'adt'):
+                raise Undecided('call of an unknown callable %s' % term_str(v), sp)
         # ---- dynamic dispatch: resolve through the concrete type recorded at the unsizing coercion
         if res is not None and res.get('kind') == 'virtual' and vals and vals[0] is not None and vals[0][0] == 'dyn':
             ri = prog.resolve_impl(fn.get('trait'), vals[0][2], fn.get('method'))
